@@ -338,7 +338,19 @@ func runFresh(c *Ctx, r *Reporter) {
 								}
 							}
 						case *ssa.Call:
-							if sc := x.Call.StaticCallee(); sc != nil && isRangerCtor(sc) {
+							sc := x.Call.StaticCallee()
+							if sc != nil && isRangerCtor(sc) {
+								return ""
+							}
+							// a constructor helper of the package: fresh if everything it returns is allocated in it
+							if sc != nil && sc.Pkg != nil && sc.Pkg.Pkg == pkg.Types && sc.Blocks != nil && sc.Signature.Results().Len() == 1 {
+								for _, r2 := range returnsOf(sc) {
+									for _, v2 := range resultValues(r2, 0) {
+										if why := bad(v2, depth+1); why != "" {
+											return why + " (returned by " + sc.Name() + ")"
+										}
+									}
+								}
 								return ""
 							}
 						}
